@@ -214,7 +214,8 @@ MCNext == DrvRestore \/ RestoreTimer \/ DrvShutdown \/ PlatformInit \/ Issue \/ 
 MCSpec == MCInit /\ [][MCNext]_mcvars
 
 \* history variables do not distinguish states
-View == <<[st EXCEPT !.tel = <<>>], nexit, ntimer, nshut, nrest>>
+\* (tel: output only.  iv[k].msg / .rel: a record of the result rapid handed over, read by nothing but trace validation)
+View == <<[st EXCEPT !.tel = <<>>, !.iv = [k \in DOMAIN st.iv |-> [st.iv[k] EXCEPT !.msg = "", !.rel = 0]]], nexit, ntimer, nshut, nrest>>
 
 ----------------------------------------------------------------------------
 (* the properties (Rapid!PropHolds) as invariants *)
